@@ -8,6 +8,8 @@ echo "| seed | base | check rc | first violation |" > $out.tmp
 echo "|---|---|---|---|" >> $out.tmp
 for d in seeded/C*/; do
   name=$(basename $d); prop=${name%%-*}
+  # SEEDRUN_ONLY=<extended regex on the directory name> restricts the run (e.g. to run halves in parallel)
+  if [ -n "$SEEDRUN_ONLY" ] && ! echo "$name" | grep -Eq "$SEEDRUN_ONLY"; then continue; fi
   w=$(mktemp -d /tmp/seedrun_XXXX); rmdir $w
   base=HEAD
   git -C /repo worktree add -q --detach $w HEAD 2>/dev/null
